@@ -502,11 +502,11 @@ func main() {
 	probes(run, root, rf, res)
 	entryPoints(run, res)
 	parsing(run, root)
-	run.Floor("answers_compared", int64(nScripts*nQ))
-	run.Floor("concurrent_answers_compared", int64(nScripts*nQ*4))
-	run.Floor("error_results_checked", int64(nScripts))
+	run.Floor("answers_compared", int64(nScripts*nQ*8/10))
+	run.Floor("concurrent_answers_compared", int64(nScripts*nQ*3))
+	run.Floor("error_results_checked", int64(nScripts*8/10))
 	run.Floor("helper_probes", 200)
-	run.Floor("concurrent_list_answers_compared", 3000)
+	run.Floor("concurrent_list_answers_compared", 2000)
 	run.Floor("result_lists_parsed", 500)
 	run.Finish()
 }
